@@ -19,6 +19,7 @@ type SVal struct {
 	fvPtr bool // closure free variable: t is the address of the variable
 	tyArg types.Type
 	pkgRef string // identifier names a package
+	tuple  map[string]SVal // results of a pure Go function applied in a spec
 }
 
 type specEnv struct {
@@ -30,6 +31,7 @@ type specEnv struct {
 	block *ssa.BasicBlock
 	idx   int
 	depth int
+	inOld bool
 }
 
 func (env *specEnv) with(vars map[string]SVal) *specEnv {
@@ -156,6 +158,7 @@ func (e *fnEnc) evalSpec(x Expr, env *specEnv) SVal {
 		return e.evalIdent(x.Name, env)
 	case *EOld:
 		n := *env
+		n.inOld = true
 		n.st = env.old
 		return e.evalSpec(x.X, &n)
 	case *EUn:
@@ -204,6 +207,17 @@ func (e *fnEnc) evalSpec(x Expr, env *specEnv) SVal {
 			body = imp(rg, body)
 		} else {
 			body = and(rg, body)
+		}
+		if len(x.PatGroups) > 0 {
+			var pats []string
+			for _, g := range x.PatGroups {
+				var ts []string
+				for _, pe := range g {
+					ts = append(ts, e.evalSpec(pe, n).t.S)
+				}
+				pats = append(pats, ":pattern ("+strings.Join(ts, " ")+")")
+			}
+			return SVal{t: T(SBool, fmt.Sprintf("(%s (%s) (! %s %s))", q, strings.Join(binders, " "), body.S, strings.Join(pats, " ")))}
 		}
 		return SVal{t: T(SBool, fmt.Sprintf("(%s (%s) %s)", q, strings.Join(binders, " "), body.S))}
 	case *ESel:
@@ -268,6 +282,14 @@ func (e *fnEnc) intOf(v SVal) Term {
 }
 
 func (e *fnEnc) evalIdent(name string, env *specEnv) SVal {
+	if env.block != nil && !env.inOld {
+		if _, isParam := e.paramVal[name]; isParam {
+			// a reassigned parameter: inside the body its name means the current value
+			if v, ok := e.resolveLocal(name, env.block, env.idx, env.st); ok {
+				return v
+			}
+		}
+	}
 	if v, ok := env.vars[name]; ok {
 		if v.fvPtr {
 			pt := ptrElem(v.typ)
@@ -383,6 +405,12 @@ func (e *fnEnc) evalSel(x *ESel, env *specEnv) SVal {
 			return v
 		}
 		e.fail("unknown %s.%s", base.pkgRef, x.Name)
+	}
+	if base.tuple != nil {
+		if v, ok := base.tuple[x.Name]; ok {
+			return v
+		}
+		e.fail("%s: no result named %s", x, x.Name)
 	}
 	if base.typ == nil {
 		e.fail("field selection %s on untyped spec value", x)
@@ -771,6 +799,11 @@ func (e *fnEnc) evalCall(x *ECall, env *specEnv) SVal {
 			r = ifPtr(a.t)
 		}
 		return SVal{t: le(r, env.st.alloc)}
+	case "same":
+		// structural identity of two strings/slices: same backing array, offset and length
+		need(2)
+		a := args()
+		return SVal{t: eq(a[0].t, a[1].t)}
 	case "lexcmp":
 		need(2)
 		a := args()
@@ -798,6 +831,29 @@ func (e *fnEnc) evalCall(x *ECall, env *specEnv) SVal {
 		es := e.sortOf(et)
 		comp, cs := e.elemComp(es)
 		return SVal{t: sel(e.heapGet(env.st, comp, cs), slBase(a.t), ArrayOf(SInt, es))}
+	}
+	// a pure Go function under contract, applied as a mathematical function
+	if fnName := qualifyFuncName(env.pkg, id.Name); e.eng.contracts[fnName] != nil && e.eng.contracts[fnName].Options["pure"] != "" {
+		if f := e.eng.funcs[fnName]; f != nil {
+			var ats []Term
+			for i, a := range args() {
+				ps := e.sortOf(f.Params[i].Type())
+				t, _ := e.coerce(a, SVal{t: Term{"?", ps}})
+				ats = append(ats, t)
+			}
+			res := e.pureApp(fnName, f.Signature, ats)
+			rn := resultNames(f.Signature)
+			tup := map[string]SVal{}
+			for i, r := range res {
+				v := SVal{t: r, typ: f.Signature.Results().At(i).Type()}
+				tup[rn[i]] = v
+				tup[fmt.Sprintf("result%d", i)] = v
+			}
+			if len(res) == 1 {
+				return tup["result0"]
+			}
+			return SVal{tuple: tup}
+		}
 	}
 	// spec function?
 	if sf, ok := e.eng.specFuncs[id.Name]; ok {
